@@ -232,7 +232,7 @@ package keeper
 //@   modifies store(ctx, "delegation")
 //@   ensures[C03.sur.err]  (err != nil) <==> exists(j, 0, len(records), records[j].CompleteBlockNumber < ctx.height)
 //@   ensures[C03.sur.none] len(records) == 0 ==> state(ctx) == old(state(ctx))
-//@   ensures[C03.sur.one]  err == nil && len(records) == 1 ==>
+//@   ensures[C03.sur.one,C04.sur.one]  err == nil && len(records) == 1 ==>
 //@        get(ctx, "delegation", urKey(records[0].OperatorAddr, records[0].BlockNumber, records[0].LzTxNonce, records[0].TxHash)) != nil &&
 //@        state(ctx) == put(put(put(old(state(ctx)), "delegation",
 //@             urKey(records[0].OperatorAddr, records[0].BlockNumber, records[0].LzTxNonce, records[0].TxHash),
